@@ -44,6 +44,11 @@ class Prop(PropBase):
                     for k in range(n):
                         if late and k == n // 2:
                             s.pkt(0, good_d, tick=tick())
+                        if k == n - 2 and r % 2 == 0:
+                            # a later DIFOP packet, correct length and identifier, whose angle table cannot be loaded (unprogrammed / out of
+                            # range): the calibration already received stays in force - no waiting-for-calibration report, nothing dropped
+                            kd_, v_, h_, raw_ = scen.cali_table(rng, l, ['ff', 'range'][(r // 2) % 2])
+                            s.pkt(0, l.difop(dual=dual, vert=v_, horiz=h_, raw_cali=raw_), tick=tick())
                         bb = None if clean else (rng.randrange(l.nblk) if rng.random() < 0.35 else None)
                         m = ms.msop(bad_blk=bb, model=rng.choice([2, 3]) if t == 'RSP80' else None, gap_prob=0.05)
                         s.pkt(0, m, tick=tick())
